@@ -411,7 +411,7 @@ func (ssc *defaultStatefulSetControl) updateStatefulSet(
 		}
 		if !isHealthy(replicas[i]) {
 			unhealthy++
-			if ord := getOrdinal(replicas[i]); ord < firstUnhealthyOrdinal {
+			if ord := getOrdinal(replicas[i]); firstUnhealthyPod == nil || ord < firstUnhealthyOrdinal {
 				firstUnhealthyOrdinal = ord
 				firstUnhealthyPod = replicas[i]
 			}
@@ -421,7 +421,7 @@ func (ssc *defaultStatefulSetControl) updateStatefulSet(
 	for i := range condemned {
 		if !isHealthy(condemned[i]) {
 			unhealthy++
-			if ord := getOrdinal(condemned[i]); ord < firstUnhealthyOrdinal {
+			if ord := getOrdinal(condemned[i]); firstUnhealthyPod == nil || ord < firstUnhealthyOrdinal {
 				firstUnhealthyOrdinal = ord
 				firstUnhealthyPod = condemned[i]
 			}
